@@ -3,10 +3,10 @@
 # allocation count, schedule trace) of each case must be identical across separate processes and worker counts.
 # usage: tools/determinism.sh [runs-per-property] [properties...]     exit 0 = identical, 2 = differs (harness error)
 set -u
-cd /verif
+V="$(cd "$(dirname "$0")/.." && pwd)"; cd "$V" || exit 2
 N="${1:-2000}"; shift || true
 PROPS="${*:-C01 C02 C03 C04 C05 C06 C07 C08 C09 C10 C11 C12 C13 C14 C15 C17 C18 C19 C20}"
-BIN=/verif/target/sched-hook/release/graphsim
+BIN="$V/target/sched-hook/release/graphsim"
 [ -x "$BIN" ] || ./check --build || exit 2
 bad=0
 for p in $PROPS; do
